@@ -385,3 +385,52 @@ class Check:
 
 class FrameworkError(Exception):
     """The machinery itself failed (model side died, tool missing): exit 2, never a VIOLATION."""
+
+
+def run_programs(th, programs, mode="run", tag="batch", timeout=600, per_program_timeout=None):
+    """Runs (name, opts, source) programs through `th run` / `th compile` in a
+    worker process. A program that kills the worker (stack overflow, abort,
+    timeout) gets status 'died' with the exit status; the worker is restarted
+    on the remaining programs. Returns {name: outcome-dict}."""
+    d = os.path.join(OUT, "progs")
+    os.makedirs(d, exist_ok=True)
+    inp = os.path.join(d, "%s-%d.in" % (tag, os.getpid()))
+    outp = os.path.join(d, "%s-%d.out" % (tag, os.getpid()))
+    with open(inp, "w") as f:
+        for name, opts, src in programs:
+            f.write("%%%%%%%% %s%s\n%s\n" % (name, (" " + opts) if opts else "", src))
+    if os.path.exists(outp):
+        os.remove(outp)
+    results = {}
+    skip = 0
+    names = [p[0] for p in programs]
+    while skip < len(programs):
+        rc, out = sh([th, mode, inp, outp, str(skip)], timeout=timeout)
+        done = 0
+        last_begin = None
+        if os.path.exists(outp):
+            for line in open(outp, errors="replace"):
+                line = line.strip()
+                if not line:
+                    continue
+                try:
+                    j = json.loads(line)
+                except ValueError:
+                    continue
+                if j.get("begin"):
+                    last_begin = j["name"]
+                else:
+                    results[j["name"]] = j
+                    done += 1
+                    last_begin = None
+            os.remove(outp)
+        if rc == 0 and last_begin is None:
+            break
+        # the worker died on program skip+done
+        k = skip + done
+        if k < len(names):
+            results[names[k]] = {"name": names[k], "status": "died", "exit": rc, "tail": out[-300:]}
+        skip = k + 1
+    if os.path.exists(inp):
+        os.remove(inp)
+    return results
